@@ -4,5 +4,6 @@ CONSTANTS
   MaxLen = 3
 INVARIANT Refines
 INVARIANT CachePrefix
+INVARIANT IteratorsAgree
 PROPERTY AppendOnly
 CHECK_DEADLOCK FALSE
